@@ -1,0 +1,40 @@
+//go:build verif
+
+package ecscache
+
+import (
+	"net/netip"
+
+	"github.com/AdguardTeam/AdGuardDNS/internal/agd"
+	"github.com/AdguardTeam/AdGuardDNS/internal/dnsmsg"
+	"github.com/AdguardTeam/AdGuardDNS/internal/geoip"
+	"github.com/AdguardTeam/golibs/netutil"
+	"github.com/miekg/dns"
+)
+
+// VerifC05SetECS exposes setECS to the verification harness.
+func VerifC05SetECS(
+	msg *dns.Msg,
+	subnet netip.Prefix,
+	scope uint8,
+	fam netutil.AddrFamily,
+	isResp bool,
+) (err error) {
+	return setECS(msg, &dnsmsg.ECS{Subnet: subnet, Scope: scope}, fam, isResp)
+}
+
+// VerifC05RespIsECSDependent exposes respIsECSDependent to the verification
+// harness.
+func VerifC05RespIsECSDependent(scope uint8, fqdn string) (ok bool) {
+	return respIsECSDependent(scope, fqdn)
+}
+
+// VerifC05LocFromReq exposes locFromReq to the verification harness.
+func VerifC05LocFromReq(ri *agd.RequestInfo) (l *geoip.Location) {
+	return locFromReq(ri)
+}
+
+// VerifC05ECSFamFromReq exposes ecsFamFromReq to the verification harness.
+func VerifC05ECSFamFromReq(ri *agd.RequestInfo) (fam netutil.AddrFamily) {
+	return ecsFamFromReq(ri)
+}
